@@ -1,6 +1,8 @@
 package harness
 
 import (
+	"crypto/sha256"
+	"encoding/hex"
 	"fmt"
 	"strings"
 	"time"
@@ -47,6 +49,10 @@ func (w *World) emitStep(op string, class int, cmp bool) {
 	w.NSteps++
 	w.emit("O %s", op)
 	w.emit("R %d %d", class, b2i(cmp))
+	if cmp && w.LastEvents != "" {
+		w.emit("V %s", w.LastEvents) // digest of the events of this operation (C19)
+		w.LastEvents = ""
+	}
 	if class != rOK {
 		w.emit("# class=%d %s", class, strings.ReplaceAll(w.LastErr, "\n", " "))
 	}
@@ -266,11 +272,27 @@ func (w *World) runBranch(f func(ctx sdk.Context) error, keep func(class int) bo
 		}
 	}()
 	w.LastErr = errText
+	w.LastEvents = eventsDigest(cctx)
 	oracle = w.oracleOp(cctx)
 	if keep(class) {
 		write()
 	}
 	return
+}
+
+func eventsDigest(ctx sdk.Context) string {
+	h := sha256.New()
+	for _, ev := range ctx.EventManager().Events() {
+		h.Write([]byte(ev.Type))
+		for _, a := range ev.Attributes {
+			h.Write([]byte{0})
+			h.Write([]byte(a.Key))
+			h.Write([]byte{1})
+			h.Write([]byte(a.Value))
+		}
+		h.Write([]byte{2})
+	}
+	return hex.EncodeToString(h.Sum(nil)[:12])
 }
 
 func keepOnOK(c int) bool     { return c == rOK }
@@ -327,6 +349,7 @@ func (w *World) Exec(a Action) {
 		}
 		w.checkTriggerAfterStakingEndBlock(before)
 		w.envSync(before, true)
+		flagBefore := w.flagSet()
 		class, oracle, _ := w.runBranch(func(ctx sdk.Context) error {
 			return alliance.EndBlocker(ctx, w.App.AllianceKeeper)
 		}, keepOnOK)
@@ -335,6 +358,18 @@ func (w *World) Exec(a Action) {
 		w.rememberBank()
 		if class != rOK {
 			w.Halted = true // the chain halts
+		} else {
+			switch w.Profile {
+			case "staking":
+				if flagBefore {
+					w.checkRebalanced()
+				}
+				w.checkSupply()
+			case "queries":
+				w.checkQueries()
+			case "general":
+				w.checkLiveness()
+			}
 		}
 	case "delegate", "undelegate", "redelegate", "claim":
 		w.execUserMsg(a)
@@ -453,6 +488,12 @@ func (w *World) execUserMsg(a Action) {
 	w.emitStep(oracle, rOK, false)
 	w.emitStep(op, class, true)
 	w.rememberBank()
+	if w.Profile == "queries" && class == rOK && (a.Kind == "undelegate" || a.Kind == "redelegate") {
+		w.checkQueries()
+	}
+	if w.Profile == "staking" {
+		w.checkSupply()
+	}
 }
 
 func (w *World) execGov(a Action) {
